@@ -114,6 +114,9 @@ pub struct CliCase {
     /// long options are written `--option=value` (one token) instead of `--option value`
     #[serde(default)]
     pub eq_form: bool,
+    /// spelling of the output path: 0 absolute, 1 relative to the working directory (a bare name), 2 `./name`
+    #[serde(default)]
+    pub rel_path: u8,
 }
 
 fn mutk_by_name(n: &str) -> Option<MutK> {
@@ -297,6 +300,12 @@ pub fn invoke(ctx: &Ctx, cli: &str, c: &CliCase, dir: &str) -> Result<RunOut, St
         let _ = std::fs::remove_file(&outfile);
         std::os::unix::fs::symlink("/dev/full", &outfile).map_err(|e| e.to_string())?;
     }
+    // how the paths are spelled on the command line: absolute, bare relative (the process runs in `dir`), ./relative
+    let (arg_dir, arg_file) = match c.rel_path % 3 {
+        0 => (outdir.clone(), outfile.clone()),
+        1 => (OUT_DIR.to_string(), OUT_FILE.to_string()),
+        _ => (format!("./{}", OUT_DIR), format!("./{}", OUT_FILE)),
+    };
     let mut cmd;
     match &c.via {
         Via::Cli => {
@@ -308,15 +317,15 @@ pub fn invoke(ctx: &Ctx, cli: &str, c: &CliCase, dir: &str) -> Result<RunOut, St
                 Mode::Single => {
                     cmd.args(c.common_args());
                     cmd.arg("--");
-                    cmd.arg(&outfile);
+                    cmd.arg(&arg_file);
                 }
                 Mode::Batch { samples, .. } => {
                     if c.short_opts {
-                        cmd.args(["-d", &outdir, "-s", &samples.to_string()]);
+                        cmd.args(["-d", &arg_dir, "-s", &samples.to_string()]);
                     } else if c.eq_form {
-                        cmd.args([format!("--dir={}", outdir), format!("--samples={}", samples)]);
+                        cmd.args([format!("--dir={}", arg_dir), format!("--samples={}", samples)]);
                     } else {
-                        cmd.args(["--dir", &outdir, "--samples", &samples.to_string()]);
+                        cmd.args(["--dir", &arg_dir, "--samples", &samples.to_string()]);
                     }
                     cmd.args(c.common_args());
                 }
@@ -336,10 +345,10 @@ pub fn invoke(ctx: &Ctx, cli: &str, c: &CliCase, dir: &str) -> Result<RunOut, St
             match &c.mode {
                 Mode::Single => {
                     a.push("--".into());
-                    a.push(outfile.clone());
+                    a.push(arg_file.clone());
                 }
                 Mode::Batch { samples, .. } => {
-                    let mut b = vec!["--dir".to_string(), outdir.clone(), "--samples".to_string(), samples.to_string()];
+                    let mut b = vec!["--dir".to_string(), arg_dir.clone(), "--samples".to_string(), samples.to_string()];
                     b.extend(a);
                     a = b;
                 }
@@ -358,10 +367,10 @@ pub fn invoke(ctx: &Ctx, cli: &str, c: &CliCase, dir: &str) -> Result<RunOut, St
             cmd.env("PATH", format!("{}:{}", bindir, std::env::var("PATH").unwrap_or_default()));
             match &c.mode {
                 Mode::Single => {
-                    cmd.env("INPUT_OUTPUT_FILE", &outfile);
+                    cmd.env("INPUT_OUTPUT_FILE", &arg_file);
                 }
                 Mode::Batch { samples, .. } => {
-                    cmd.env("INPUT_OUTPUT_DIR", &outdir);
+                    cmd.env("INPUT_OUTPUT_DIR", &arg_dir);
                     cmd.env("INPUT_SAMPLES", samples.to_string());
                 }
             }
@@ -564,9 +573,9 @@ pub fn cli_strategy(wrapper: bool) -> BoxedStrategy<CliCase> {
     };
     (
         (proptest::option::weighted(0.6, 0u8..6), proptest::option::weighted(0.9, any::<u64>()), range, names),
-        (rate, any::<bool>(), any::<bool>(), any::<bool>(), mode, proptest::sample::select(vec![1u8, 2, 5, 16]), via, proptest::bool::weighted(0.3), proptest::bool::weighted(0.25), (any::<bool>(), proptest::bool::weighted(0.06), proptest::bool::weighted(0.3))),
+        (rate, any::<bool>(), any::<bool>(), any::<bool>(), mode, proptest::sample::select(vec![1u8, 2, 5, 16]), via, proptest::bool::weighted(0.3), proptest::bool::weighted(0.25), (any::<bool>(), proptest::bool::weighted(0.06), proptest::bool::weighted(0.3), prop_oneof![3 => Just(0u8), 1 => Just(1u8), 1 => Just(2u8)])),
     )
-        .prop_map(|((protocol, seed, (min, max), mutators), (rate, u, e, b, mode, rayon_threads, via, short_opts, preexisting, (fault_devfull, single_fault, eq_form)))| {
+        .prop_map(|((protocol, seed, (min, max), mutators), (rate, u, e, b, mode, rayon_threads, via, short_opts, preexisting, (fault_devfull, single_fault, eq_form, rel_path)))| {
             let single = mode_is_single(&mode);
             CliCase {
             protocol,
@@ -587,6 +596,7 @@ pub fn cli_strategy(wrapper: bool) -> BoxedStrategy<CliCase> {
             fault_devfull: if single { single_fault } else { fault_devfull },
             preexisting: preexisting && !(single && single_fault),
             eq_form,
+            rel_path,
             }
         })
         .boxed()
@@ -613,6 +623,9 @@ pub enum PyOp {
     Generate,
     #[serde(with = "crate::case::hexbytes")]
     FromBytes(Vec<u8>),
+    /// generate_from_bytes with another bytes-like carrier of the same logical bytes: 1 bytearray, 2 memoryview,
+    /// 3 a strided memoryview (every second byte of a buffer with junk in between), 4 array('B')
+    FromView(u8, Vec<u8>),
     Reset,
     Mutate(#[serde(with = "crate::case::hexbytes")] Vec<u8>, usize),
 }
@@ -634,6 +647,7 @@ impl PySeq {
                 PyOp::SetRange(a, b) => json!(["set_range", a, b]),
                 PyOp::Generate => json!(["generate"]),
                 PyOp::FromBytes(b) => json!(["from_bytes", util::hex(b)]),
+                PyOp::FromView(k, b) => json!(["from_view", k, util::hex(b)]),
                 PyOp::Reset => json!(["reset"]),
                 PyOp::Mutate(b, m) => json!(["mutate", util::hex(b), m]),
             })
@@ -660,7 +674,7 @@ impl PySeq {
                         out.push(None); // OS entropy: not comparable
                     }
                 }
-                PyOp::FromBytes(b) => {
+                PyOp::FromBytes(b) | PyOp::FromView(_, b) => {
                     let mut c = cfg.clone();
                     c.entropy = Entropy::Bytes(b.clone());
                     out.push(c.run().ok());
@@ -689,6 +703,7 @@ pub fn pyseq_strategy() -> BoxedStrategy<PySeq> {
         3 => (0usize..80, 0usize..120).prop_map(|(a, b)| PyOp::SetRange(a, b)),
         3 => Just(PyOp::Generate),
         4 => bytes.clone().prop_map(PyOp::FromBytes),
+        1 => (1u8..=4, bytes.clone()).prop_map(|(k, b)| PyOp::FromView(k, b)),
         2 => Just(PyOp::Reset),
         3 => (bytes, prop_oneof![Just(10_000usize), 0usize..400]).prop_map(|(b, m)| PyOp::Mutate(b, m)),
     ];
@@ -738,11 +753,16 @@ pub fn judge_python(seq: &PySeq, got: &[String]) -> Result<bool, Fail> {
             PyOp::SetRange(..) => "set_opcode_range",
             PyOp::Generate => "generate",
             PyOp::FromBytes(_) => "generate_from_bytes",
+            PyOp::FromView(..) => "generate_from_bytes(bytes-like)",
             PyOp::Reset => "reset",
             PyOp::Mutate(..) => "mutate",
         };
         if matches!(o, PyOp::SetRange(..)) {
             seen_setter = true;
+        }
+        if matches!(o, PyOp::FromView(..)) && g == "ERR:TypeError" {
+            // the binding may refuse carriers other than `bytes`; if it accepts one, the logical bytes count
+            continue;
         }
         if g.starts_with("ERR:") {
             return Err(Fail::new(format!("python:{}:{}:raised", cls, opname), format!("op #{} {} raised {} in {:?}", i, opname, g, seq)));
@@ -1083,7 +1103,9 @@ pub fn check_py_mem(ctx: &Ctx, pkg_parent: &str, c: &PyMemCase, st: &mut Stats) 
     }
     st.nontrivial(util::digest_str(&format!("pymem{}{}", c.protocol, c.seed)));
     let what = format!("Python front end, protocol {} seed {}: {} calls returned {} bytes", c.protocol, c.seed, c.calls, total);
-    if py_growth > total / 2 {
+    // measured on the tree: a few hundred bytes. 256 KiB + 1/64 of the bytes returned is far above that and far
+    // below what retaining even a small record per call adds up to
+    if py_growth > (256 << 10) + total / 64 {
         return ctx.fail(st, Fail::new("python-retains-results", format!("{}; Python-level allocations grew by {} bytes (tracemalloc): the results (or their inputs) are retained", what, py_growth)));
     }
     if rss_growth > total / 2 + (16 << 20) {
